@@ -72,19 +72,25 @@ JAll(A, B, e) ==
   \cup Chk((Len(A) = 1 /\ Len(B) = 1) => (e.res <=> e.dnone), "C10:iff-difference-none")
 
 \* ------------------------------------------------------------------ C11
+\* versions outside the quantifier (a component above MAX_SAFE_INTEGER, e.g. the successor of x.y.MAX) neither
+\* count as lower candidates nor pin the value: `>1.2.MAX` may answer 1.2.(MAX+1) or carry to 1.3.0
+Carry(E) == UNION { { V3(v.M, NumSucc(v.m), Zero), V4(v.M, NumSucc(v.m), Zero, <<N0>>),
+                      V3(NumSucc(v.M), Zero, Zero), V4(NumSucc(v.M), Zero, Zero, <<N0>>) } : v \in E }
 JMinv(A, e) ==
   IF e.some THEN
     LET m == e.val
-        P == Probes(Ends(A) \cup {NoBuild(m)})
+        E == Ends(A) \cup {NoBuild(m)}
+        P == Probes(E) \cup Carry(E)
         s == MinVersion(A) IN
          Chk(e.sat, "C11:obs-satisfies")
     \cup Chk(RSat(A, m), "C11:satisfies")
-    \cup Chk(\A v \in P : VLt(v, m) => ~RSat(A, v), "C11:least")
-    \cup Chk(s # <<>> /\ Key(s[1]) = Key(m), "C11:value")
+    \cup Chk(\A v \in P : (WfVer(v) /\ VLt(v, m)) => ~RSat(A, v), "C11:least")
+    \cup Chk(s # <<>> /\ (WfVer(s[1]) => Key(s[1]) = Key(m)), "C11:value")
   ELSE
-    LET P == Probes(Ends(A)) IN
-         Chk(\A v \in P : ~RSat(A, v), "C11:none-but-satisfiable")
-    \cup Chk(MinVersion(A) = <<>>, "C11:value")
+    LET P == Probes(Ends(A)) \cup Carry(Ends(A))
+        s == MinVersion(A) IN
+         Chk(\A v \in P : WfVer(v) => ~RSat(A, v), "C11:none-but-satisfiable")
+    \cup Chk(s = <<>> \/ ~WfVer(s[1]), "C11:value")
 
 \* ------------------------------------------------------------------ C03 (given the bounds)
 JSat(A, e) ==
